@@ -28,7 +28,7 @@ META = {
                   "lets a Release meet a blocked Acquire; this is modelled (successes never exceed Release calls), not flagged.",
 }
 
-ONCE_INV = ["TypeOK", "OnceOnly", "ExactlyOnce", "SameResult", "WaitsOnlyOnSameKey", "IndependentKeys",
+ONCE_INV = ["TypeOK", "OnceOnly", "ExactlyOnce", "NoRetryAfterPanic", "OnePanicPerKey", "NoFaultNoStuck", "SameResult", "WaitsOnlyOnSameKey", "IndependentKeys",
             "TokenConservation", "ClosedImpliesCached", "OneLoaderPerKey", "LoaderKeyOK"]
 ONCE_PROP = ["MapStable", "Termination", "EveryGetReturns", "AbsSpec"]
 SEMA_INV = ["TypeOK", "HoldersBound", "CancelWhenFull", "BlocksWhenFull", "ReleaseNeverBlocks", "ZeroCapacity", "ReturnsCtxErr"]
@@ -130,6 +130,8 @@ def run(ctx):
         "context kinds: WithCancel, WithDeadline/custom DeadlineExceeded, custom context with its own error, WithCancelCause, "
         "WithTimeoutCause / WithDeadlineCause (expired, self-expiring in the stress, or ended through a cause-cancelled parent), "
         "context.AfterFunc-decorated, nested child of a cause-cancelled parent; Acquire must return ctx.Err() itself, never context.Cause",
+        "constructor faults are part of the environment: for the keys in the model's panic-key set the (single) invocation panics; "
+        "the Get that ran it ends with the panic, the other Gets of the key stay blocked (accepted, not required), no Get may return a value",
         "Release is not tied to a holder in the model; with capacity 0 a Release may hand over to a blocked Acquire (unbuffered channel)",
     ]
     par = max(2, NCPU // 4)
@@ -155,16 +157,18 @@ def run(ctx):
         jobs.append(dict(spec_dir=d, module=module, cfg=cfg, label=label, workers=kw.pop("workers", w), **kw))
 
     write_cfg(d / "OnceMC3_run.cfg", "FairSpec", {"Procs": "{1, 2, 3}", "Keys": KEYS, "KeyPlans": "<- OneCallPlans",
-                                                "ZeroKeySets": "<- SomeZeroKeys" if q else "<- AnyZeroKeys"},
+                                                "ZeroKeySets": "<- SomeZeroKeys" if q else "<- AnyZeroKeys",
+                                                "PanicKeySets": "<- K0PanicKey" if q else "<- OnePanicKey"},
               invariants=ONCE_INV, properties=ONCE_PROP)
     job("OnceMC", "OnceMC3_run.cfg", "once-mc 3 procs x 2 keys")
     write_cfg(d / "OnceMC2_run.cfg", "FairSpec", {"Procs": "{1, 2}", "Keys": KEYS, "KeyPlans": "<- MixedPlans",
-                                                "ZeroKeySets": "<- SomeZeroKeys" if q else "<- AnyZeroKeys"},
+                                                "ZeroKeySets": "<- SomeZeroKeys" if q else "<- AnyZeroKeys",
+                                                "PanicKeySets": "<- K0PanicKey" if q else "<- OnePanicKey"},
               invariants=ONCE_INV, properties=ONCE_PROP)
     job("OnceMC", "OnceMC2_run.cfg", "once-mc 2 procs x 1..2 Gets")
     if not q:
         write_cfg(d / "OnceMC3b_run.cfg", "Spec", {"Procs": "{1, 2, 3}", "Keys": KEYS, "KeyPlans": "<- SymTwoCallPlans",
-                                                   "ZeroKeySets": "<- SomeZeroKeys"},
+                                                   "ZeroKeySets": "<- SomeZeroKeys", "PanicKeySets": "<- NoPanicKeys"},
                   invariants=ONCE_INV, properties=["MapStable"])
         job("OnceMC", "OnceMC3b_run.cfg", "once-mc 3 procs x 2 Gets (safety)", timeout=1500, workers=8)
     for n in (0, 1, 2):
@@ -191,27 +195,33 @@ def run(ctx):
 
     gen_inv = ["Emit", "GenOK", "NoStuck"]
     write_cfg(d / "OnceGen2_run.cfg", "GSpec", {"Procs": "{1, 2}", "Keys": KEYS, "KeyPlans": "<- SymTwoCallPlans",
-                                                "ZeroKeySets": "<- AnyZeroKeys",
-                                                "OutFile": '"once_sched_2.ndjson"'}, invariants=gen_inv)
+                                                "ZeroKeySets": "<- SomeZeroKeys" if q else "<- AnyZeroKeys",
+                                                "PanicKeySets": "<- OnePanicKey",
+                                                "OutFile": '"once_sched_2.ndjson"', "OutFileP": '"once_sched_2p.ndjson"'},
+              invariants=gen_inv)
     job("OnceGen", "OnceGen2_run.cfg", "once-gen 2 procs")
-    # binding G: sequential call sequences (one goroutine, up to 4 Gets over 3 keys, every zero-key subset)
-    write_cfg(d / "OnceGenSeq_run.cfg", "GSpec", {"Procs": "{1}", "Keys": '{"a", "b", "c"}', "KeyPlans": "<- SeqPlans",
-                                                  "ZeroKeySets": "<- AnyZeroKeys",
-                                                  "OutFile": '"once_seq.ndjson"'}, invariants=gen_inv)
+    # binding G: sequential call sequences (one goroutine, up to 4 Gets over 3 keys (quick: 2), every zero-key subset, one panicking key)
+    write_cfg(d / "OnceGenSeq_run.cfg", "GSpec", {"Procs": "{1}", "Keys": KEYS if q else '{"a", "b", "c"}', "KeyPlans": "<- SeqPlans",
+                                                  "ZeroKeySets": "<- AnyZeroKeys", "PanicKeySets": "<- OnePanicKey",
+                                                  "OutFile": '"once_seq.ndjson"', "OutFileP": '"once_seqp.ndjson"'},
+              invariants=gen_inv)
     job("OnceGen", "OnceGenSeq_run.cfg", "once-gen sequential", workers=2)
     if q:
         write_cfg(d / "OnceGen3_run.cfg", "GSpec", {"Procs": "{1, 2, 3}", "Keys": KEYS, "KeyPlans": "<- OneCallPlans",
-                                                    "ZeroKeySets": "<- AnyZeroKeys",
-                                                    "OutFile": '"once_sched_3.ndjson"'}, invariants=gen_inv)
+                                                    "ZeroKeySets": "<- AnyZeroKeys", "PanicKeySets": "<- OnePanicKey",
+                                                    "OutFile": '"once_sched_3.ndjson"', "OutFileP": '"once_sched_3p.ndjson"'},
+                  invariants=gen_inv)
         job("OnceGen", "OnceGen3_run.cfg", "once-gen 3 procs (simulated)", simulate=1200, depth=60)
     else:
         write_cfg(d / "OnceGen3_run.cfg", "GSpec", {"Procs": "{1, 2, 3}", "Keys": KEYS, "KeyPlans": "<- SymOneCallPlans",
-                                                    "ZeroKeySets": "<- SomeZeroKeys",
-                                                    "OutFile": '"once_sched_3.ndjson"'}, invariants=gen_inv)
+                                                    "ZeroKeySets": "<- SomeZeroKeys", "PanicKeySets": "<- OnePanicKey",
+                                                    "OutFile": '"once_sched_3.ndjson"', "OutFileP": '"once_sched_3p.ndjson"'},
+                  invariants=gen_inv)
         job("OnceGen", "OnceGen3_run.cfg", "once-gen 3 procs", timeout=1500, workers=8)
         write_cfg(d / "OnceGen3s_run.cfg", "GSpec", {"Procs": "{1, 2, 3}", "Keys": KEYS, "KeyPlans": "<- MixedPlans",
-                                                     "ZeroKeySets": "<- AnyZeroKeys",
-                                                     "OutFile": '"once_sched_3s.ndjson"'}, invariants=gen_inv)
+                                                     "ZeroKeySets": "<- AnyZeroKeys", "PanicKeySets": "<- OnePanicKey",
+                                                     "OutFile": '"once_sched_3s.ndjson"', "OutFileP": '"once_sched_3sp.ndjson"'},
+                  invariants=gen_inv)
         job("OnceGen", "OnceGen3s_run.cfg", "once-gen 3 procs x 1..2 Gets (simulated)", simulate=4000, depth=90)
     depth = 5 if q else 7
     for n in (0, 1, 2):
@@ -238,6 +248,33 @@ def run(ctx):
              (["c17", "replay-once", d / "once_seq.ndjson", ctx.scratch / "onceseq.res", 1, "all"], "onceseq.res")]
     if not q:
         rjobs.append((["c17", "replay-once", d / "once_sched_3s.ndjson", ctx.scratch / "once3s.res", 1, "cycle"], "once3s.res"))
+    # Schedules in which a constructor panics leave goroutines blocked for good inside syncutil (that is what
+    # the code does); a process that has replayed many of them carries thousands of parked goroutines and its
+    # wait-state evidence (goroutine dumps) gets slow.  They are replayed in batches, one short process each;
+    # quick samples them (seeded), thorough takes all 2-process / sequential ones and every 4th 3-process one.
+    def batches(fname, every, size=150):
+        import random
+        src = d / fname
+        if not src.exists():
+            return 0
+        rnd = random.Random(ctx.seed * 7919 + len(fname))
+        lines = [l for l in open(src, "rb") if l.strip()]
+        total = len(lines)
+        if every > 1:
+            lines = [l for l in lines if rnd.randrange(every) == 0]
+        for i in range(0, len(lines), size):
+            cf = d / ("%s.%03d" % (fname, i // size))
+            with open(cf, "wb") as f:
+                f.writelines(lines[i:i + size])
+            name = "%s.%03d.res" % (fname, i // size)
+            rjobs.append((["c17", "replay-once", cf, ctx.scratch / name, 1, "cycle"], name))
+        return total
+    npanic = batches("once_sched_2p.ndjson", 4 if q else 1)
+    npanic += batches("once_sched_3p.ndjson", 1 if q else 4)
+    npanic += batches("once_seqp.ndjson", 1)
+    if not q:
+        npanic += batches("once_sched_3sp.ndjson", 1)
+    ctx.extra["schedules_enumerated"]["once_with_constructor_panic"] = npanic
     # VerifGate is a process-wide hook: OnceConstructor replays run one after the other inside a process
     # (separate processes are independent).  Semaphore sequences have no global state and are sharded.
     shards = 1 if q else max(2, min(6, NCPU // 2))
@@ -245,7 +282,7 @@ def run(ctx):
         for sh in range(shards):
             name = "sema%d_%d.res" % (n, sh)
             rjobs.append((["c17", "replay-sema", d / ("sema_sched_%d.ndjson" % n), ctx.scratch / name, 1, sh, shards], name))
-    with ThreadPoolExecutor(max_workers=3 if q else max(2, min(6, NCPU // 2))) as ex:
+    with ThreadPoolExecutor(max_workers=4 if q else max(2, min(6, NCPU // 2))) as ex:
         list(ex.map(lambda j: ctx.vh(j[0], timeout=2400), rjobs))
     tot = {}
     for _, name in rjobs:
@@ -365,7 +402,7 @@ def replay(ctx, path):
     vf = ctx.scratch / "one.ndjson"
     vf.write_text(json.dumps(vec) + "\n")
     inst = "ptr"
-    for name in ("error", "any", "intkey", "anyfn", "fn", "box", "chan", "map"):
+    for name in ("error", "any", "intkey", "anyfn", "fn", "box", "chan", "map", "int"):
         if r.get("key", "").endswith("[%s]" % name):
             inst = name
     args = ["c17", mode, vf, ctx.scratch / "one.res", 1] + ([0, 1] if mode == "replay-sema" else [inst])
